@@ -4,7 +4,8 @@ PROP = {
     "level": "fault_enumeration",
     "rule": ("the real HandlingDataManager (LUNAR_STREAMS_ENABLED, scratch configuration directories, HAProxy's admin/health endpoints answered by an in-process RoundTripper) is driven through its "
              "HTTP handlers with httptest and probed through routing.Handler with SPOE request messages. Unit 1 (rapid): initial configuration of 1-3 flows and an optional quota x payload "
-             "{changed / added flow files, non-YAML text, a cyclic graph, an unknown processor, undecodable base64, valid or invalid quota file, no flows at all} x endpoint "
+             "{changed / added flow files, non-YAML text, a cyclic graph, an unknown processor, undecodable base64, valid or invalid quota file, no flows at all, a metrics entry that is valid / changed / not YAML / of the wrong shape / undecodable, "
+             "with or without an existing user metrics file} x endpoint "
              "{PUT /configuration, PUT /apply_flows} x one injected failure {k-th file store, file removal, directory walk (hook H4a) or k-th HAProxy admin call} (never combined with a payload "
              "that is rejected anyway) x optional probe transactions issued from inside the switch (hook H4b). Unit 2 (fault enumeration): for fixed valid payloads a dry run counts the calls "
              "of each operation and a failure is injected at every one of them in turn. Oracle: after a non-2xx answer the configuration files (path -> sha256) and the probe results equal "
@@ -13,12 +14,13 @@ PROP = {
     "assumptions": [
         "HAProxy is a stub that answers 200 (or 500 for the injected call); health-check failures are not injected (each costs 40 real-time retries)",
         "one failure per update: a payload that is rejected anyway is not combined with an injected fault, so a fault never hits the recovery step of another failure",
-        "the generated path-parameter file is not part of the compared configuration files",
+        "the generated path-parameter file is not part of the compared configuration files; the gateway's built-in default metrics file is (an update must never change it)",
         "the syslog exporter on 127.0.0.1:5140 is served by a dummy listener when the port is free",
     ],
     "units": [
         {"pkg": "c08", "test": "TestConfigurationUpdates", "quick": 250, "thorough": 3000, "shards": 1},
         {"pkg": "c08", "test": "TestFaultEnumeration", "kind": "plain"},
+        {"pkg": "c08", "test": "TestRegressionFixedDefects", "kind": "plain"},
     ],
     "serial": True,
     "technique": "fault injection at every file-system / admin-call step (enumerated for fixed payloads, rapid-generated otherwise) with before/after comparison of disk and behaviour fingerprints; probes inside the switch through a yield hook",
